@@ -182,13 +182,13 @@ def inst_to_text(I, tok=str, sep=' ', colon=': ', trailer=True, file_numerics=No
     return text
 
 
-def _parse_groups(tokens):
+def _parse_groups(tokens, ent=int):
     """Independent reader of a tie-aware list: returns list of groups."""
     groups, cur = [], None
     for t in tokens:
         opens = t.startswith('(')
         closes = t.endswith(')')
-        n = int(t.strip('()'))
+        n = ent(t.strip('()'))
         if opens and not closes:
             cur = [n]
         elif closes and not opens:
@@ -204,7 +204,7 @@ def _parse_groups(tokens):
     return groups
 
 
-def parse_text(text, na, twopl, num=int):
+def parse_text(text, na, twopl, num=int, ent=int):
     """Independent reader of the documented file format -> Inst.
     ``num`` converts a numeric token (may map placeholders to terms)."""
     lines = text.split('\n')
@@ -216,7 +216,7 @@ def parse_text(text, na, twopl, num=int):
         head, _, rest = lines[i].partition(':')
         if int(head.strip()) != i:
             raise ValueError('bad student line number')
-        prefs.append(_parse_groups(rest.split()))
+        prefs.append(_parse_groups(rest.split(), ent))
     plq, puq, plec, llq, lt, luq = [], [], [], [], [], []
     lprefs = [] if twopl else None
     for j in range(1, np_ + 1):
@@ -233,7 +233,7 @@ def parse_text(text, na, twopl, num=int):
             lt.append(puq[-1])
             luq.append(puq[-1])
             if twopl:
-                lprefs.append(_parse_groups(parts[3].split() if len(parts) > 3 else []))
+                lprefs.append(_parse_groups(parts[3].split() if len(parts) > 3 else [], ent))
     if na == 3:
         for k in range(1, nl + 1):
             parts = [x.strip() for x in lines[ns + np_ + k].split(':')]
@@ -243,7 +243,7 @@ def parse_text(text, na, twopl, num=int):
             lt.append(num(parts[2]))
             luq.append(num(parts[3]))
             if twopl:
-                lprefs.append(_parse_groups(parts[4].split() if len(parts) > 4 else []))
+                lprefs.append(_parse_groups(parts[4].split() if len(parts) > 4 else [], ent))
     return Inst(na, ns, np_, nl, prefs, plec, lprefs, plq, puq, llq, lt, luq)
 
 
